@@ -44,6 +44,27 @@ impl TomlConverter {
         for val in items.iter() {
             v.push(self.convert_value(val)?);
         }
+        // The toml serializer can only write tuples in a list as an array of
+        // tables. A list that mixes tuples with other values, or nests them
+        // in a list of lists, comes out as invalid toml so we refuse it.
+        fn holds_table(items: &[toml::Value]) -> bool {
+            items.iter().any(|i| match i {
+                toml::Value::Table(_) => true,
+                toml::Value::Array(inner) => holds_table(inner),
+                _ => false,
+            })
+        }
+        let tables = v.iter().filter(|i| i.is_table()).count();
+        let nested = v.iter().any(|i| match i {
+            toml::Value::Array(inner) => holds_table(inner),
+            _ => false,
+        });
+        if (tables != 0 && tables != v.len()) || nested {
+            let err = SimpleError::new(
+                "Lists that mix tuples with other values or nest tuples in lists of lists are not allowed in Toml Conversions!",
+            );
+            return Err(Box::new(err));
+        }
         Ok(toml::Value::Array(v))
     }
 
